@@ -9,7 +9,7 @@ open Xref
 variable {V : Type}
 
 /-- layouts the theorems quantify over: every record takes at least one byte -/
-def Layout.Pos (L : Layout) : Prop := (∀ id, 0 < L.recLen id) ∧ 0 < L.xrefLen
+def Layout.Pos (L : Layout) : Prop := (∀ id, 0 < L.recLen id) ∧ ∀ i, 0 < L.xrefLen i
 
 structure PrepFacts (d0 d : Doc V) (pr : Prep V) : Prop where
   inv : Inv d0 ⟨pr.st2, d.tr⟩
@@ -192,7 +192,7 @@ theorem inv_of_commit (P : Params V) (L : Layout) (hL : L.Pos) (d0 d d' : Doc V)
   have hn0 : d0.st.refs.length ≤ (prep d).xid := Nat.le_trans hi.refs_len pf.xid_ge
   -- lookups in the new `changes`
   have hlook : ∀ j, chLookup d'.st.changes j =
-      if j = (prep d).xid then some (P.xrefVal, 0) else chLookup (prep d).st2.changes j := by
+      if j = (prep d).xid then some (P.xrefVal (saveInfoOf (prep d) w (w.refs.set (prep d).xid (.raw (w.len - (prep d).st2.start) 0)) rows), 0) else chLookup (prep d).st2.changes j := by
     intro j; rw [hst]; simp [commit, chLookup_chInsert]
   have hrefs : d'.st.refs = w.refs.set (prep d).xid (.raw (w.len - (prep d).st2.start) 0) := by rw [hst]; rfl
   refine
@@ -203,7 +203,7 @@ theorem inv_of_commit (P : Params V) (L : Layout) (hL : L.Pos) (d0 d d' : Doc V)
   · rw [hst]; simp only [commit]; rw [pf.start_same]; exact hi.start_eq
   · rw [hst]; simp only [commit]; have := hi.len_ge; have := pf.len_same; omega
   · obtain ⟨e0, a, b⟩ := hi.objs_ext
-    refine ⟨e0 ++ ext ++ [⟨w.len, (prep d).xid, 0, P.xrefVal, []⟩], ?_, ?_⟩
+    refine ⟨e0 ++ ext ++ [⟨w.len, (prep d).xid, 0, P.xrefRec d.tr (prep d).infoRef (saveInfoOf (prep d) w (w.refs.set (prep d).xid (.raw (w.len - (prep d).st2.start) 0)) rows), []⟩], ?_, ?_⟩
     · rw [hst]; simp only [commit]; rw [k2, pf.objs_eq, a]; simp
     · intro o ho
       simp only [List.mem_append, List.mem_singleton] at ho
@@ -223,12 +223,12 @@ theorem inv_of_commit (P : Params V) (L : Layout) (hL : L.Pos) (d0 d d' : Doc V)
     rw [hst] at ho ⊢; simp only [commit, List.mem_append, List.mem_singleton] at ho ⊢
     rcases ho with ho | ho
     · have := k4 o ho; omega
-    · subst ho; simp only; have := hL.2; omega
+    · subst ho; simp only; have := hL.2 (saveInfoOf (prep d) w (w.refs.set (prep d).xid (.raw (w.len - (prep d).st2.start) 0)) rows); omega
   · intro o ho
     rw [hst] at ho ⊢; simp only [commit, List.mem_append, List.mem_singleton] at ho ⊢
     rcases ho with ho | ho
-    · have := pf.inv.secs_lt o ho; simp only at this; have := hL.2; omega
-    · subst ho; simp only; have := hL.2; omega
+    · have := pf.inv.secs_lt o ho; simp only at this; have := hL.2 (saveInfoOf (prep d) w (w.refs.set (prep d).xid (.raw (w.len - (prep d).st2.start) 0)) rows); omega
+    · subst ho; simp only; have := hL.2 (saveInfoOf (prep d) w (w.refs.set (prep d).xid (.raw (w.len - (prep d).st2.start) 0)) rows); omega
   · rw [hrefs, List.length_set, f1]; exact pf.inv.refs_len
   · rw [hst]; exact sorted_chInsert _ _ _ hs
   · intro j hj hc
@@ -286,7 +286,7 @@ theorem save_tr_eq (P : Params V) (L : Layout) (d0 d d' : Doc V) (chain0) (i : S
   obtain ⟨w, rows, hw, hr, hst, hl, _, _, _, _, _⟩ := save_ok_spec P L d d' i h
   obtain ⟨t1, t2, _, t4, t5⟩ := loadTrailer_ok _ _ _ _ _ hl
   have hlook : ∀ j, chLookup d'.st.changes j =
-      if j = (prep d).xid then some (P.xrefVal, 0) else chLookup (prep d).st2.changes j := by
+      if j = (prep d).xid then some (P.xrefVal (saveInfoOf (prep d) w (w.refs.set (prep d).xid (.raw (w.len - (prep d).st2.start) 0)) rows), 0) else chLookup (prep d).st2.changes j := by
     intro j; rw [hst]; simp [commit, chLookup_chInsert]
   have hinfo : d'.tr.info = d.tr.info := by
     cases hir : (prep d).infoRef with
@@ -454,9 +454,7 @@ theorem save_cases (P : Params V) (L : Layout) (d0 d : Doc V) (chain0) (hb : Bas
       cases lt with
       | ok tr =>
         left
-        refine ⟨⟨(prep d).xid, w.len - (prep d).st2.start, (prep d).size,
-          (widths (w.refs.set (prep d).xid (.raw (w.len - (prep d).st2.start) 0))).1,
-          (widths (w.refs.set (prep d).xid (.raw (w.len - (prep d).st2.start) 0))).2, rows⟩, tr, ?_⟩
+        refine ⟨saveInfoOf (prep d) w (w.refs.set (prep d).xid (.raw (w.len - (prep d).st2.start) 0)) rows, tr, ?_⟩
         unfold save; simp only [hnb, if_false, hw, hr, hl]
       | err => right; refine ⟨rfl, ?_⟩; unfold save; simp only [hnb, if_false, hw, hr, hl]
       | panic =>
@@ -491,5 +489,19 @@ theorem inv_save (P : Params V) (L : Layout) (hL : L.Pos) (d0 d : Doc V) (chain0
       exact ⟨inv_of_commit P L hL d0 d _ chain0 hb hi w rows hw rfl htr, Or.inl ⟨i, rfl⟩⟩
     · rw [hs]
       exact ⟨inv_of_commit P L hL d0 d _ chain0 hb hi w rows hw rfl rfl, Or.inr rfl⟩
+
+/-- the `SaveInfo` a successful save returns is the one its cross-reference stream value was made from -/
+theorem save_ok_info (P : Params V) (L : Layout) (d d' : Doc V) (i : SaveInfo) (h : save P L d = (d', .ok i))
+    (w : Written V) (rows : List XRef)
+    (hw : writeChanges P L (prep d).st2.start (prep d).st2.changes ⟨(prep d).st2.refs, (prep d).st2.objs, (prep d).st2.len⟩
+        = (w, .ok ()))
+    (hr : rowsOf ((w.refs.set (prep d).xid (.raw (w.len - (prep d).st2.start) 0)).take ((prep d).xid + 1)) = some rows) :
+    i = saveInfoOf (prep d) w (w.refs.set (prep d).xid (.raw (w.len - (prep d).st2.start) 0)) rows := by
+  unfold save at h
+  by_cases hbig : d.st.refs.length + 2 > MAX_ID
+  · simp [hbig] at h
+  simp only [hbig, if_false, hw, hr] at h
+  split at h <;> simp only [Prod.mk.injEq, Out.ok.injEq, reduceCtorEq, and_false] at h
+  exact h.2.symm
 
 end Storage
